@@ -250,6 +250,9 @@ def run(ctx, mult=1, seed_shift=0, corpus=True):
     for name, b in bins:
         for args, tag in jobs_for(ctx, mult, seed_shift):
             jobs.append((b, args, f"{name}_{tag}"))
+        if ctx.spec.get("ctor_probe"):
+            # every constructor (incl. Default) instantiated for supported and unsupported MIN_ALIGN values
+            jobs.append((b, ["ctor"], f"{name}_ctor"))
     t = time.time()
     with ThreadPoolExecutor(max_workers=14) as ex:
         results = list(ex.map(lambda j: run_one(ctx, j[0], drv, j[1], j[2]), jobs))
@@ -294,6 +297,8 @@ def summarize(ctx, results):
 def plan_text_for(fail, run):
     if fail.get("plan_text"):
         return fail["plan_text"]
+    if fail.get("name", "").startswith("ctor-"):
+        return "CTOR\n"
     for r in run.get("results", []):
         if r["trace"] == fail.get("trace") and fail.get("plan") in r["plans"]:
             p = r["plans"][fail["plan"]]
